@@ -2,7 +2,7 @@
 From Coq Require Import List Bool Arith NArith.
 From TV Require Import Num.Num Num.QNum Model.Cache Model.Engine Model.EngineToy Model.EngineReal Model.EngineForestG Model.EngineRealToy
   Proofs.EngineMemo Proofs.EngineDirty Proofs.EngineHistory
-  Proofs.EngineFrame Proofs.EngineToyProofs Proofs.EngineTotal Proofs.EngineRealDirty.
+  Proofs.EngineFrame Proofs.EngineToyProofs Proofs.EngineTotal Proofs.EngineRealDirty Proofs.EngineRealHistory.
 Import ListNotations.
 
 (* recomputing the layout of an unchanged tree with the same input is answered by the root's cache entry: the tree is
@@ -210,6 +210,24 @@ Theorem C15_real_fresh_invariants :
               GOk S Lay C Cok t /\ GJ S Lay is_none C cdirty cfinal t /\ GB S Lay is_none C cdirty cfinal t.
 Proof. intros until Cok. intros HL k. eapply gfresh_inv; eauto. Qed.
 
+(* the invariants hold in every state reachable from a state satisfying them (e.g. a fresh tree) by mutators -- edit, then gmark_dirty,
+   at nodes without display:none ancestor, attached subtrees satisfying the invariants themselves -- and PerformLayout passes: the
+   premises of C15_real_mark_exact / C15_real_clean_after_pass are never false along a history, for any lawful cache *)
+Theorem C15_real_invariants_reachable :
+  forall (S In Out Lay : Type) (mode : In -> RunMode) (is_none : S -> bool) (hidden_out : Out) (zero_lay : Lay)
+         (algo : S -> list S -> In -> Alg In Out Lay) (mcalls : S -> list S -> In -> N)
+         (C : Type) (cempty : C) (cget : C -> In -> option Out) (clossy : C -> In -> bool) (cstore : C -> In -> Out -> C) (cclear : C -> C)
+         (cdirty cfinal : C -> bool) (Cok : C -> Prop),
+    cache_laws In Out mode C cempty cget cstore cclear cdirty cfinal Cok ->
+    (forall s st i, WFAlg In Out Lay mode (algo s st i)) ->
+    (forall s st i, mode i = PerformLayout -> Visits In Out Lay mode (seq 0 (length st)) (algo s st i)) ->
+    forall ops t,
+      GInv S Lay is_none C cdirty cfinal Cok t ->
+      grun_ok S In Out Lay mode is_none hidden_out zero_lay algo mcalls C cget clossy cstore cclear cdirty cfinal Cok t ops ->
+      GInv S Lay is_none C cdirty cfinal Cok
+        (grun_ops S In Out Lay mode is_none hidden_out zero_lay algo mcalls C cget clossy cstore cclear cdirty t ops).
+Proof. intros until Cok. intros HL HWF HH1. intros. eapply ghistory_inv; eauto. Qed.
+
 (* ... and on the toy instance of the real-cache engine (Model/EngineRealToy.v, 6 nodes, node 3 display:none with a child): the first
    pass succeeds and fills the caches; the second pass with ONE unit of fuel returns the same output and the same tree up to the
    root's hit counter; after the pass the dirty flags (pre-order) are false except below the display:none node; marking node 2
@@ -238,6 +256,14 @@ Proof.
   split; [cbn; auto|]. vm_compute. reflexivity.
 Qed.
 
+Print Assumptions C15_real_cache_laws.
+Print Assumptions C15_real_second_pass_silent.
+Print Assumptions C15_real_cache_second_pass_silent.
+Print Assumptions C15_real_clean_after_pass.
+Print Assumptions C15_real_full_means_not_dirty.
+Print Assumptions C15_real_mark_exact.
+Print Assumptions C15_real_fresh_invariants.
+Print Assumptions C15_real_invariants_reachable.
 End RealCache.
 
 Print Assumptions C15_second_pass_silent.
@@ -246,10 +272,3 @@ Print Assumptions C15_full_means_not_dirty.
 Print Assumptions C15_mark_exact.
 Print Assumptions C15_invariants_reachable.
 Print Assumptions C15_pass_succeeds_with_enough_fuel.
-Print Assumptions RealCache.C15_real_cache_laws.
-Print Assumptions RealCache.C15_real_second_pass_silent.
-Print Assumptions RealCache.C15_real_cache_second_pass_silent.
-Print Assumptions RealCache.C15_real_clean_after_pass.
-Print Assumptions RealCache.C15_real_full_means_not_dirty.
-Print Assumptions RealCache.C15_real_mark_exact.
-Print Assumptions RealCache.C15_real_fresh_invariants.
